@@ -42,6 +42,15 @@ def make_pool(rng, size=None, style=None):
             seen.add(k)
             pool.append(k)
 
+    if style == "huge":
+        # keys of 520-700 bytes that share 515+ bytes and then differ (common prefixes
+        # beyond 1024 nibbles / 4096 bits)
+        stem = bytes(byte() for _ in range(rng.choice([515, 520, 600])))
+        for _ in range(min(size, 6)):
+            add(stem + bytes(byte() for _ in range(rng.choice([5, 20, 80]))))
+        add(stem[:514] + bytes([stem[514] ^ 0x10]) + b"\x01")
+        return pool
+
     if style == "comb":
         n = rng.choice([33, 36, 40, 48])
         base = bytes(byte() for _ in range(n))
